@@ -642,7 +642,14 @@ func (fx *fexec) sliceOp(x *ssa.Slice, st *State) Val {
 		h := vc.heapGet(st, comp, srt)
 		vc.heapSet(st, comp, store(h, base.T, vc.load(st, l)))
 		vc.note("array sliced through pointer: contents moved to the element heap (later direct array access not modelled)")
-		return Val{Ty: vc.resolve(x.Type()), T: vc.define(x.Name(), mkSlice(base.T, lo, sub(hi, lo), sub(intLit(at.Len()), lo)))}
+		res := vc.define(x.Name(), mkSlice(base.T, lo, sub(hi, lo), sub(intLit(at.Len()), lo)))
+		if n, ok := litOf(sub(hi, lo)); ok {
+			if vc.constLens == nil {
+				vc.constLens = map[string]int64{}
+			}
+			vc.constLens[res.S] = n.Int64()
+		}
+		return Val{Ty: vc.resolve(x.Type()), T: res}
 	case *types.Basic:
 		if u.Info()&types.IsString != 0 {
 			return fx.stringSlice(x, base, lo, st)
@@ -775,7 +782,9 @@ func (vc *VC) intBinop(fx *fexec, st *State, op token.Token, a, b Val, rt types.
 		if vc.wraps {
 			return mk(vc.define(name, wrapInt(exact, ii.w, ii.signed)))
 		}
-		e := vc.define(name, exact)
+		// named by a constant (not a macro): index arithmetic such as i+1 then stays
+		// atomic inside select terms, which keeps E-matching of quantified facts working
+		e := vc.nameInt(name, exact)
 		o := vc.oblige(st, "overflow", what+" stays in "+typeKey(rt), and(le(bigLit(ii.lo()), e), le(e, bigLit(ii.hi()))))
 		o.Pos = pos
 		return mk(e)
